@@ -70,6 +70,27 @@ Definition fm_cap (mi : option spec_float) (pw : Z * Z) : option Z :=
   | None => Some (Z.max (fst pw) (snd pw))
   end.
 
+(* The cap of the PROPERTY TEXT: the heaviest input part, or "(1 + max_imbalance) x half the
+   total" as an ideal f64 implementation of the documented formula returns it: the EXACT value
+   (max_imbalance = the value of the binary64 parameter, the total in Z) rounded ONCE to the
+   nearest binary64, ties to even, then truncated to i64 like `W::from_f64`.  [fm_cap] above is
+   the CODE's cap, which rounds three times (`total.to_f64()`, the product, the sum); the two
+   differ only when these roundings accumulate (known finding, Properties/C07.v).
+   (1 + mi) * t / 2 is an integer times a power of two: [binary_normalize] rounds it once. *)
+Definition f64_rn (m e : Z) : spec_float := binary_normalize 53 1024 m e false.
+
+Definition cap_prop (mi : option spec_float) (pw : Z * Z) : option Z :=
+  let t := fst pw + snd pw in
+  match mi with
+  | None => Some (Z.max (fst pw) (snd pw))
+  | Some (S754_zero _) => to_i64 (f64_rn t (-1))
+  | Some (S754_finite s m e) =>
+      let n := if s then Z.neg m else Z.pos m in              (* mi = n * 2^e *)
+      if 0 <=? e then to_i64 (f64_rn ((1 + n * 2 ^ e) * t) (-1))
+      else to_i64 (f64_rn ((2 ^ (- e) + n) * t) (e - 1))
+  | Some _ => None                                            (* NaN, infinite *)
+  end.
+
 (* the gain of a vertex from its row; `partition[neighbor]` may be out of bounds *)
 Fixpoint row_gain_chk (p : list N) (pv : N) (r : row) : option Z :=
   match r with
